@@ -19,7 +19,9 @@ Init == /\ csent = 0 /\ ssent = 0 /\ crecv = 0 /\ srecv = 0 /\ cup = FALSE /\ su
 
 SConnect == ~sup /\ sconns = 0 /\ sup' = TRUE /\ sconns' = 1
             /\ UNCHANGED <<csent, ssent, crecv, srecv, cup, cconns, cdiscs, sdiscs>>
-CConnect == ~cup /\ cconns = 0 /\ sup /\ cup' = TRUE /\ cconns' = 1
+\* the client's connect event follows the server's (the server may already have gone again
+\* while the OPEN response travelled)
+CConnect == ~cup /\ cconns = 0 /\ sconns = 1 /\ cup' = TRUE /\ cconns' = 1
             /\ UNCHANGED <<csent, ssent, crecv, srecv, sup, sconns, cdiscs, sdiscs>>
 CSend == cup /\ csent < MaxMsg /\ csent' = csent + 1
          /\ UNCHANGED <<ssent, crecv, srecv, cup, sup, cconns, sconns, cdiscs, sdiscs>>
